@@ -361,6 +361,9 @@ Inductive kind :=
 | CutRecord      (* truncated inside a frame: ValueError from the unpacker *)
 | BadLine        (* damaged JSON line: ValueError *)
 | CutCompressed  (* truncated compressed file: EOFError, ended silently by the reader's own loop *)
+| OpenError      (* not an IOError and raised while the source is OPENED, before `reader` is bound to a reader: a
+                    compressed file cut a few bytes after its magic (EOFError in readheader), an undecodable .csv,
+                    a garbage .avro *)
 | OtherError.
 
 Inductive exn := ExIO | ExOther | ExNone.
@@ -368,7 +371,7 @@ Inductive exn := ExIO | ExOther | ExNone.
 Definition exn_of (k : kind) : exn :=
   match k with
   | Missing | NotAStream => ExIO
-  | CutRecord | BadLine | OtherError => ExOther
+  | CutRecord | BadLine | OpenError | OtherError => ExOther
   | CutCompressed => ExNone
   end.
 
